@@ -36,7 +36,7 @@ REQUIRED_REACH = ["negative-det-cells", "non-affine-cells", "default-order", "fa
                   "equal-size-subdomains-on-one-mesh", "overlapping-tags-union", "overlapping-facet-tags-union",
                   "input:small-units", "input:float32-vertices", "input:non-contiguous-arrays",
                   "interior-facet-basis-with-order", "every-cell-order", "every-facet-order", "facet-basis-default-order",
-                  "interior-facet-basis-default-order", "straight-second-order-copy"]
+                  "interior-facet-basis-default-order", "straight-second-order-copy", "elemental-values"]
 ASSUMPTIONS = ["vertex coordinates are taken as the exact rational values of the doubles stored in the mesh",
                "nodal bases of the exact reference use the nearest small rationals (denominator <= 64) to the "
                "element's tabulated reference nodes"]
@@ -86,7 +86,11 @@ def exact_cells(mesh, kind, poly, cells, n):
         total += val
         vol = float(s * X.int_ref(jd, ref))
         scale += abs(float(val)) + vol * max(abs(float(X.peval(poly, v))) for v in verts)
+        PER_CELL.append(float(val))
     return total, scale, okdeg, neg, info
+
+
+PER_CELL = []          # exact value per cell of the last exact_cells call (cleared by the caller that wants it)
 
 
 def monomial_poly(e):
@@ -227,6 +231,15 @@ def cell_functionals(ctx, k, kind):
             if not mc.affine_cells:
                 ctx.reached("non-affine-cells")
             got = skfem.Functional(poly_fn(e)).assemble(b)
+            if which == "whole" or np.asarray(cells).size <= 12:
+                # ... and cell by cell (compensating errors of neighbouring cells would cancel in the total)
+                del PER_CELL[:]
+                exact_cells(mesh, kind, poly, cells, n)
+                per = np.array(PER_CELL)
+                el = np.asarray(skfem.Functional(poly_fn(e)).elemental(b))
+                ctx.close("cell-functional-exact", el, per, rtol=1e-12, scale=scale / max(1, per.size) + float(np.abs(per).max()),
+                          mech=f"cell-integral-elemental:{kind}", kind=kind, geom=geom, order=n, monomial=e, domain=which)
+                ctx.reached("elemental-values")
             mon = "cell-functional-exact" if which == "whole" else "subdomain-functional-exact"
             ctx.close(mon, got, float(total), rtol=1e-12, scale=scale,
                       mech=f"cell-integral:{kind}", kind=kind, geom=geom, order=n, monomial=e, domain=which,
